@@ -1757,6 +1757,150 @@ theorem foldAt_error_justified (a' i' : Expr) (err : ExecErr) (h : foldAt a' i' 
     exact ⟨s, k, rfl, rfl, ofExec_err h⟩
   · simp at h
 
+/-! ### … and these rules are the only source of parse-time errors -/
+
+/-- the error was produced by one of the three folding rules that may fail, applied to folded operands -/
+inductive RuleErr (err : ExecErr) : Prop where
+  | bin (op : BinOp) (a' b' : Expr) (h : foldBin op a' b' = .error (.exec err))
+  | idx (a' i' : Expr) (h : foldAt a' i' = .error (.exec err))
+  | rep (k : Int) (h : i64 k < 0) (he : err = .NegativeLength)
+
+theorem bind_err {α β} {x : R α} {k : α → R β} {e : FErr} (h : (x >>= k) = .error e) :
+    x = .error e ∨ ∃ a, x = .ok a ∧ k a = .error e := by
+  cases x with
+  | error e' => left; simpa [bind, Except.bind] using h
+  | ok a => exact Or.inr ⟨a, rfl, h⟩
+
+theorem foldPre_no_exec_err (op : PreOp) (e' : Expr) (err : ExecErr) (h : foldPre op e' = .error (.exec err)) : False := by
+  cases op <;> simp only [foldPre] at h
+  · split at h
+    · have := ofExec_err h
+      unfold preScalar at this
+      split at this <;> cases this
+    · cases h
+  · split at h
+    · have := ofExec_err h
+      unfold preScalar at this
+      split at this <;> cases this
+    · cases h
+  · cases h
+
+syntax "err_step" : tactic
+set_option hygiene false in
+macro_rules
+  | `(tactic| err_step) => `(tactic| first
+      | (cases h; done)
+      | (simp [unsup] at h; done)
+      | exact RuleErr.bin _ _ _ h
+      | exact RuleErr.idx _ _ h
+      | exact (foldPre_no_exec_err _ _ _ h).elim
+      | exact fold_err _ _ _ h
+      | exact foldOpt_err _ _ _ h
+      | exact foldList_err _ _ _ h
+      | exact foldFields_err _ _ _ h
+      | exact foldArms_err _ _ _ h
+      | exact foldSeq_err _ _ _ _ h
+      | (rcases bind_err h with h | ⟨_, _, h⟩)
+      | split at h)
+
+syntax "err_auto" : tactic
+macro_rules
+  | `(tactic| err_auto) => `(tactic| repeat' err_step)
+
+set_option maxHeartbeats 4000000 in
+mutual
+theorem fold_err : ∀ (e : Expr) (g : CEnv) (err : ExecErr), fold g e = .error (.exec err) → RuleErr err
+  | .litBool _, g, err, h => by simp only [fold] at h; err_auto
+  | .litInt _, g, err, h => by simp only [fold] at h; err_auto
+  | .litFloat _, g, err, h => by simp only [fold] at h; err_auto
+  | .litStr _, g, err, h => by simp only [fold] at h; err_auto
+  | .litUnit, g, err, h => by simp only [fold] at h; err_auto
+  | .brk, g, err, h => by simp only [fold] at h; err_auto
+  | .cont, g, err, h => by simp only [fold] at h; err_auto
+  | .var _, g, err, h => by simp only [fold] at h; err_auto
+  | .array _, g, err, h => by simp only [fold] at h; err_auto
+  | .tuple _, g, err, h => by simp only [fold] at h; err_auto
+  | .arrayRepeat v n, g, err, h => by
+    simp only [fold] at h
+    rcases bind_err h with h | ⟨v', hv', h⟩
+    · exact fold_err v g err h
+    · rcases bind_err h with h | ⟨n', hn', h⟩
+      · exact fold_err n g err h
+      · split at h
+        · next k =>
+          split at h
+          · next hk => simp only [Except.error.injEq, FErr.exec.injEq] at h; exact RuleErr.rep k hk h.symm
+          · split at h <;> first | (simp [unsup] at h; done) | (cases h; done)
+        · cases h
+  | .struct _, g, err, h => by simp only [fold] at h; err_auto
+  | .mutE _ _, g, err, h => by simp only [fold] at h; err_auto
+  | .pre _ _, g, err, h => by simp only [fold] at h; err_auto
+  | .and a b, g, err, h => by simp only [fold] at h; err_auto
+  | .or a b, g, err, h => by simp only [fold] at h; err_auto
+  | .bin _ _ _, g, err, h => by simp only [fold] at h; err_auto
+  | .assign _ _ _, g, err, h => by simp only [fold] at h; err_auto
+  | .at _ _, g, err, h => by simp only [fold] at h; err_auto
+  | .slice a none none none, g, err, h => by simp only [fold] at h; exact fold_err a g err h
+  | .slice _ (some _) _ _, g, err, h => by simp only [fold] at h; err_auto
+  | .slice _ none (some _) _, g, err, h => by simp only [fold] at h; err_auto
+  | .slice _ none none (some _), g, err, h => by simp only [fold] at h; err_auto
+  | .call _ _, g, err, h => by simp only [fold] at h; err_auto
+  | .tacc _ _, g, err, h => by simp only [fold] at h; err_auto
+  | .facc _ _, g, err, h => by simp only [fold] at h; err_auto
+  | .tfilter _ _, g, err, h => by simp only [fold] at h; err_auto
+  | .post _ _, g, err, h => by simp only [fold] at h; err_auto
+  | .reduce _ _ _, g, err, h => by simp only [fold] at h; err_auto
+  | .block _, g, err, h => by simp only [fold] at h; err_auto
+  | .ifElse _ _ (some _), g, err, h => by simp only [fold] at h; err_auto
+  | .ifElse _ _ none, g, err, h => by simp only [fold] at h; err_auto
+  | .ifSet _ _ _ _ _, g, err, h => by simp only [fold] at h; err_auto
+  | .matchE _ _, g, err, h => by simp only [fold] at h; err_auto
+  | .ret _, g, err, h => by simp only [fold] at h; err_auto
+  | .loop _, g, err, h => by simp only [fold] at h; err_auto
+  | .while _ _, g, err, h => by simp only [fold] at h; err_auto
+  | .whileSet _ _ _ _, g, err, h => by simp only [fold] at h; err_auto
+  | .forE _ _ _, g, err, h => by simp only [fold] at h; err_auto
+  | .fn _ _ _, g, err, h => by simp only [fold] at h; err_auto
+  | .modE .., g, err, h => by simp [fold, unsup] at h
+  | .set .., g, err, h => by simp [fold, unsup] at h
+  | .destruct .., g, err, h => by simp [fold, unsup] at h
+  | .fndecl .., g, err, h => by simp [fold, unsup] at h
+  | .native _, g, err, h => by simp [fold, unsup] at h
+theorem foldOpt_err : ∀ (e : Option Expr) (g : CEnv) (err : ExecErr), foldOpt g e = .error (.exec err) → RuleErr err
+  | none, g, err, h => by simp only [foldOpt] at h; cases h
+  | some e, g, err, h => by simp only [foldOpt] at h; err_auto
+theorem foldList_err : ∀ (es : List Expr) (g : CEnv) (err : ExecErr), foldList g es = .error (.exec err) → RuleErr err
+  | [], g, err, h => by simp only [foldList] at h; cases h
+  | e :: es, g, err, h => by simp only [foldList] at h; err_auto
+theorem foldFields_err : ∀ (fs : List (String × Expr)) (g : CEnv) (err : ExecErr),
+    foldFields g fs = .error (.exec err) → RuleErr err
+  | [], g, err, h => by simp only [foldFields] at h; cases h
+  | (k, e) :: es, g, err, h => by simp only [foldFields] at h; err_auto
+theorem foldArms_err : ∀ (arms : List Arm) (g : CEnv) (err : ExecErr), foldArms g arms = .error (.exec err) → RuleErr err
+  | [], g, err, h => by simp only [foldArms] at h; cases h
+  | .ty _ _ _ :: rest, g, err, h => by simp only [foldArms] at h; err_auto
+  | .val _ _ :: rest, g, err, h => by simp only [foldArms] at h; err_auto
+  | .other _ :: rest, g, err, h => by simp only [foldArms] at h; err_auto
+theorem foldSeq_err : ∀ (ss : List Expr) (blk : Bool) (g : CEnv) (err : ExecErr),
+    foldSeq blk g ss = .error (.exec err) → RuleErr err
+  | [], blk, g, err, h => by simp only [foldSeq] at h; cases h
+  | .set _ _ :: rest, blk, g, err, h => by simp only [foldSeq] at h; err_auto
+  | .destruct _ _ :: rest, blk, g, err, h => by simp only [foldSeq] at h; err_auto
+  | .fndecl _ _ _ _ :: rest, blk, g, err, h => by simp only [foldSeq] at h; err_auto
+  | s :: rest, blk, g, err, h => by
+    cases s <;> first
+      | (simp only [foldSeq] at h; err_auto; done)
+end
+
+/-- every `ExecError` the model reports for a whole program is produced by one of the three rules - and so (the
+    `*_error_justified` theorems) is the answer of an operation on constant operands that fails whenever it is evaluated -/
+theorem foldProgram_error_source (prog : List Expr) (err : ExecErr) (h : foldProgram prog = .error (.exec err)) :
+    RuleErr err := by
+  unfold foldProgram at h
+  rcases bind_err h with h | ⟨_, _, h⟩
+  · exact foldSeq_err prog false [] err h
+  · cases h
+
 /-! ## the open finding F07, as a witness
 
 The pass runs a second time whenever a closure is created, with the CAPTURED VALUES recorded as constants
